@@ -193,6 +193,10 @@ def forms_rules(repo, rep):
         lv = ite_leaves(got) if isinstance(got, Rat) else []
         key = 'R-TABLE::geodepy/angles.py::%s' % q
         w = where(f, f.node)
+        if len(lv) == 1 and isinstance(got, Rat):
+            rep.violated('R-SIBLING', 'R-SIBLING::geodepy/angles.py::%s::sign' % q, w, '%s returns the same value whatever the sign flag: a negative angle comes back positive' % q,
+                         expected='v if positive else -v', actual=show(got, 2, 120))
+            continue
         if len(lv) != 2:
             rep.undecided('R-TABLE', key, w, '%s is not a positive/negative pair' % q)
             continue
@@ -500,6 +504,10 @@ def digit_rules(repo, rep):
                 k, nd, msg = ev.string_problems[0]
                 rep.violated('R-DIGITS', 'R-DIGITS::geodepy/angles.py::%s::string%s' % (q, tag), where(f, nd), '%s parses a malformed number: %s' % (q, msg))
                 continue
+            shp = [(wh_, msg_) for k_, wh_, msg_ in ev.diagnostics if k_ == 'shape']
+            if shp:
+                rep.violated('R-DIGITS', 'R-DIGITS::geodepy/angles.py::%s::string%s' % (q, tag), shp[0][0] or w, '%s: %s (IndexError at run time)' % (q, shp[0][1]))
+                continue
             if len(set(specs)) != 1:
                 rep.undecided('R-FORMAT', key, w, '%s does not read the HP number through exactly one ".Pf" rendering (found %s)' % (q, sorted(set(specs))))
                 continue
@@ -661,6 +669,45 @@ def digit_rules(repo, rep):
                     rep.holds('R-FORMAT', k2, where(f, nd), 'seconds written with %d decimals (0.5e-%d" rounding, tolerance 1e-8")' % (p, p))
                 else:
                     rep.violated('R-FORMAT', k2, where(f, nd), 'seconds written with %d decimals: rounding error 0.5e-%d" exceeds the 1e-8" tolerance' % (p, p), expected='>= 9', actual=str(p))
+    # ---- the carry test of dec2hp looks at the seconds exactly as they will be written
+    f = m.func('dec2hp')
+    ps = [int(mm_.group(2)) for mm_ in (re.match(r'^0(\d+)\.(\d+)f$', sp) for fn, sp, nd in ev.formats if fn == 'dec2hp') if mm_]
+    rs = [(dg, ln) for fn, dg, val, ln in ev.roundings if fn == 'dec2hp']
+    key = 'R-CARRY::geodepy/angles.py::dec2hp::places'
+    if len(ps) == 1 and len(rs) >= 1:
+        dg, ln = rs[0]
+        if dg == ps[0]:
+            rep.holds('R-CARRY', key, '%s:%d' % (f.module.relpath, ln), 'the carry test rounds the seconds to %d places, the places they are written with' % dg)
+        else:
+            rep.violated('R-CARRY', key, '%s:%d' % (f.module.relpath, ln), 'the carry test rounds the seconds to %s places but they are written with %d: a value that rounds to 60 only at %d places '
+                         'is not carried and is written as a seconds field of 60 (invalid HP)' % (dg, ps[0], min(dg or 0, ps[0])), expected=str(ps[0]), actual=str(dg))
+    else:
+        rep.undecided('R-CARRY', key, where(f, f.node), 'carry test / seconds format not recognised (%s, %s)' % (ps, rs))
+    # ---- string form of the DMS / DDM constructors: 'DDD MM SS.SSS' -> fields by position
+    for cname, fields in (('DMSAngle', ['degree', 'minute', 'second']), ('DDMAngle', ['degree', 'minute'])):
+        init = m.classes[cname].init()
+        got_ = {}
+        for n_ in ast.walk(init.node):
+            if isinstance(n_, ast.Assign) and isinstance(n_.targets[0], ast.Name) and n_.targets[0].id in fields and isinstance(n_.value, ast.Call) \
+                    and n_.value.args and isinstance(n_.value.args[0], ast.Subscript) and isinstance(n_.value.args[0].slice, ast.Constant) \
+                    and isinstance(n_.value.args[0].value, ast.Name):
+                src_ = n_.value.args[0].value.id
+                split_ = any(isinstance(a_, ast.Assign) and isinstance(a_.targets[0], ast.Name) and a_.targets[0].id == src_ and isinstance(a_.value, ast.Call)
+                             and getattr(a_.value.func, 'attr', '') == 'split' for a_ in ast.walk(init.node))
+                if split_:
+                    got_[n_.targets[0].id] = (n_.value.args[0].slice.value, n_)
+        key = 'R-TABLE::geodepy/angles.py::%s.__init__::string-fields' % cname
+        if not got_:
+            rep.undecided('R-TABLE', key, where(init, init.node), 'no string form found')
+            continue
+        wrong = [(k_, v_[0]) for k_, v_ in got_.items() if v_[0] != fields.index(k_)]
+        if wrong or len(got_) != len(fields):
+            k_, ix_ = wrong[0] if wrong else (sorted(set(fields) - set(got_))[0], None)
+            rep.violated('R-TABLE', key, where(init, got_[k_][1]) if k_ in got_ else where(init, init.node),
+                         "%s('DDD MM SS.S'): %s is taken from part %s of the string; the parts are %s in this order" % (cname, k_, ix_, fields),
+                         expected=str(fields.index(k_)), actual=str(ix_))
+        else:
+            rep.holds('R-TABLE', key, where(init, init.node), '%s string form: %s = parts 0..%d' % (cname, ', '.join(fields), len(fields) - 1))
     # ---- sibling rule: how positional fields are taken out of an HP number
     extraction_rules(repo, rep, m)
     rep.floor('R-DIGITS', 8, 'field cutting of hp2dec / hp2dms / hp2ddm per magnitude regime, assembly of dec2hp, field extraction of the hp2* functions')
